@@ -369,6 +369,26 @@ func (e *Engine) load(st *state, addr *Val, t types.Type) *Val {
 			// an element of the view Next handed out: an element of the bytes that read delivered
 			return &Val{Op: "elem", Args: []*Val{base.Args[2], addr.Args[1]}, Type: t}
 		}
+		// … also through a cursor moved along the view (`b = b[2:]` … `b[0]`): the element at the summed offset
+		{
+			off, b, ok := int64(0), base, true
+			for ok && b.Op == "slice" && len(b.Args) >= 3 {
+				if b.Args[1] != nil {
+					k, isC := b.Args[1].Int64()
+					if !isC || k < 0 {
+						ok = false
+						break
+					}
+					off += k
+				}
+				b = b.Args[0]
+			}
+			if ok && off > 0 && b.Op == "bufnext" && len(b.Args) == 3 {
+				if k, isC := addr.Args[1].Int64(); isC {
+					return &Val{Op: "elem", Args: []*Val{b.Args[2], mkInt(off + k)}, Type: t}
+				}
+			}
+		}
 	}
 	root := addrRoot(addr)
 	if root != nil && root.Op == "alloc" {
@@ -416,6 +436,37 @@ func (e *Engine) load(st *state, addr *Val, t types.Type) *Val {
 		// (an enclosing aggregate store is handled above for one level)
 		if anc := e.storedAncestor(st, addr); anc != nil {
 			return anc
+		}
+		// an array of numbers some of whose elements were stored: the elements as they are now (not the zero value)
+		if av, isArr := t.Underlying().(*types.Array); isArr && av.Len() > 0 && av.Len() <= 4096 {
+			if _, staged := st.content[addr.Key()]; !staged {
+				touched, exact := false, true
+				for _, me := range st.mem {
+					if me.Addr != nil && me.Addr.Key() != addr.Key() && isAncestorAddr(addr, me.Addr) {
+						touched = true
+						if me.Addr.Op != "index" || me.Addr.Args[0].Key() != addr.Key() {
+							exact = false
+						} else if _, isC := me.Addr.Args[1].Int64(); !isC {
+							exact = false
+						}
+					}
+				}
+				if touched && !exact {
+					return &Val{Op: "unknown", ID: e.id(), Name: "array-partly-stored", Type: t}
+				}
+				if touched {
+					agg := &Val{Op: "array", Type: t}
+					for i := int64(0); i < av.Len(); i++ {
+						ea := &Val{Op: "index", Args: []*Val{addr, mkInt(i)}, Type: types.NewPointer(av.Elem())}
+						if me, has := st.mem[ea.Key()]; has {
+							agg.Args = append(agg.Args, me.V)
+						} else {
+							agg.Args = append(agg.Args, zeroVal(av.Elem()))
+						}
+					}
+					return agg
+				}
+			}
 		}
 		return zeroVal(t)
 	}
@@ -2184,7 +2235,11 @@ func (e *Engine) step(st *state, fr *frame, instr ssa.Instruction) {
 		}
 	case *ssa.ChangeType:
 		x := e.val(fr, in.X)
-		fr.env[in] = &Val{Op: "conv", Name: "changetype", Args: []*Val{x}, Type: in.Type()}
+		if types.Identical(in.X.Type(), in.Type()) {
+			fr.env[in] = x // (an instantiation wrapper handing its parameter on: []K to []K)
+		} else {
+			fr.env[in] = &Val{Op: "conv", Name: "changetype", Args: []*Val{x}, Type: in.Type()}
+		}
 	case *ssa.Convert:
 		fr.env[in] = e.convert(st, e.val(fr, in.X), in.X.Type(), in.Type())
 	case *ssa.MultiConvert:
